@@ -312,8 +312,10 @@ var xLeaves = []xLeaf{
 	{src: "true", val: true}, {src: "false", val: false}, {src: "nil", val: nil},
 	{src: "neg", val: -7},
 	// the pool above is enumerated exhaustively; the rest joins in random trees
-	{src: "007", val: 7}, {src: "3.", val: 3.0}, {src: `""`, val: ""}, {src: "m1", val: -1}, {src: "maxi", val: math.MaxInt},
+	{src: "007", val: 7}, {src: "010", val: 10}, {src: "08", val: 8}, {src: "3.", val: 3.0}, {src: `""`, val: ""}, {src: "m1", val: -1}, {src: "maxi", val: math.MaxInt},
 	{src: "f0", val: 0.0}, {src: "fneg", val: -2.5}, {src: "nope", unknown: true}, {src: `"a.*"`, val: "a.*"}, {src: `"("`, val: "("},
+	// patterns whose only regular-expression syntax is a backslash escape, and subjects for them
+	{src: `"a1"`, val: "a1"}, {src: `"foo bar"`, val: "foo bar"}, {src: `"\d"`, val: `\d`}, {src: `"^\w\d$"`, val: `^\w\d$`}, {src: `"\bbar"`, val: `\bbar`}, {src: `"\x61"`, val: `\x61`},
 	{src: "fbig", val: 1.5e21}, {src: "fsmall", val: 0.00001}, {src: "1000000.0", val: 1000000.0}, {src: "fmil", val: 2.5e6},
 }
 
@@ -598,7 +600,7 @@ func init() {
 	core.Register(&core.Prop{
 		ID:         "C06",
 		Level:      "exploration",
-		Rule:       "expression trees over int/float/string/bool/nil literals and variables, an unknown identifier, with + - * / < <= > >= == != ~= && || !; depth 1 exhaustive over 22 leaves (incl. ! placements), depth 2 both shapes over a 12-leaf pool (exhaustive in thorough, 1/10 in quick), random to depth 5. Each tree is printed with minimal, random-redundant and full parentheses, every leaf wrapped in a recording helper; the engine's value, error status and evaluation trace are compared with a reference evaluator of the documented semantics, and the three printings with each other. Non-trivial = judged (not abstained) tree, counted by the hash of its minimal printing.",
+		Rule:       "expression trees over int/float/string/bool/nil literals and variables, an unknown identifier, with + - * / < <= > >= == != ~= && || !; depth 1 exhaustive over 34 leaves (incl. ! placements), depth 2 both shapes over a 12-leaf pool (exhaustive in thorough, 1/10 in quick), random to depth 5. Each tree is printed with minimal, random-redundant and full parentheses, every leaf wrapped in a recording helper; the engine's value, error status and evaluation trace are compared with a reference evaluator of the documented semantics, and the three printings with each other. Non-trivial = judged (not abstained) tree, counted by the hash of its minimal printing.",
 		Assume:     []string{"abstentions (not judged): string compared with a non-string, bool on the left of == != + with a non-bool right, bool + bool, string + nil", "the reference evaluator encodes the property text: int x int, float x float, string x string, bool x bool (== !=), nil (== !=), string + x; everything else is a type mismatch"},
 		Batches:    batchesQT(16, 64),
 		Run:        c06Run,
